@@ -126,7 +126,7 @@ fn session_bits(ops: &[&Op]) -> u8 {
             | Op::Update { .. }
             | Op::Delete { .. }
             | Op::SetDbCodepage(_) => bits |= 2,
-            Op::WriteStream { .. } | Op::RemoveStream { .. } | Op::RemoveSignature => bits |= 4,
+            Op::WriteStream { .. } | Op::WriteStreamDrop { .. } | Op::RemoveStream { .. } | Op::RemoveSignature => bits |= 4,
             Op::ReadMissing { .. } | Op::BadSelect { .. } => {}
         }
     }
